@@ -95,6 +95,9 @@ def generic_atomizer(known: Callable[[ast.expr], str | None]) -> Callable[[ast.e
     """known atoms first; then any non-boolean-structure leaf becomes an opaque atom."""
 
     def f(x: ast.expr) -> str | None:
+        # `(name := expr)` tests expr (and binds name: the copy propagation of raise_condition_table sees the binding)
+        while isinstance(x, ast.NamedExpr):
+            x = x.value
         k = known(x)
         if k is not None:
             return k
@@ -148,6 +151,8 @@ def raise_condition_table(fn: ast.AST, raises: list[ast.AST], atoms: list[str],
     for n in ast.walk(fn):
         if isinstance(n, ast.Assign) and len(n.targets) == 1 and isinstance(n.targets[0], ast.Name):
             binds.setdefault(n.targets[0].id, []).append(n.value)
+        elif isinstance(n, ast.NamedExpr) and isinstance(n.target, ast.Name):
+            binds.setdefault(n.target.id, []).append(n.value)
         elif isinstance(n, ast.Name) and isinstance(n.ctx, (ast.Store, ast.Del)):
             binds.setdefault(n.id, []).append(None)
     # an ast.Assign target is also seen as a Store name: a single binding shows up as [value, None]
